@@ -500,6 +500,9 @@ fn run_sm(ctx: &RunCtx, _tier: Tier) -> RunOut {
     let mut s = Setup::new(mode);
     s.blocking = Blocking::all();
     let mut e = Exec::new(s, Box::new(PD { progress: progress.clone(), fail_install, await_last_ack }), Store::default());
+    // the installer reports its values one after the other, or all at once (joined)
+    let concurrent = n >= 2 && choose("concurrent_reports", 2) == 1;
+    e.w.lock().unwrap().concurrent_progress = concurrent;
     let opts = SchedOpts { por: true, spurious: true, drops: false };
     let stop = e.run_with(&opts, 160, |ex, en| {
         let g = ex.w.lock().unwrap();
@@ -594,8 +597,8 @@ fn parts(tier: Tier) -> Vec<PartDef> {
     let d = tier.pick(3, 5);
     v.push(PartDef::new(
         "install-progress",
-        Cfg::new("C13/install-progress").dev(d).free(&["progress_len", "install_fails", "mode", "await_last_ack"]),
-        json!({"progress_sequences": "0..3 values", "install": ["ok", "failed"], "installer_waits_for_last_acknowledgement": [true, false], "modes": ["oneshot", "start"], "blocking": "timers, http, plan, install, each progress, reboot",
+        Cfg::new("C13/install-progress").dev(d).free(&["progress_len", "install_fails", "mode", "await_last_ack", "concurrent_reports"]),
+        json!({"progress_sequences": "0..3 values", "install": ["ok", "failed"], "installer_waits_for_last_acknowledgement": [true, false], "installer_reports": ["one after the other", "all at once (joined)"], "modes": ["oneshot", "start"], "blocking": "timers, http, plan, install, each progress, reboot",
                "scheduling": format!("at most {d} non-default choices (other completion order, delayed or spurious consumer poll)")}),
         move |ctx| run_sm(ctx, tier),
     ));
